@@ -18,6 +18,7 @@ import (
 	"iter"
 	"net/http"
 	"runtime"
+	"slices"
 	"strconv"
 	"strings"
 	"sync"
@@ -43,7 +44,7 @@ type c08Resume struct {
 }
 
 type c08Spec struct {
-	Version    string      `json:"version"` // 2025-06-18 (no priming) | 2025-11-25 (priming)
+	Version    string      `json:"version"` // 2025-06-18 (no priming) | 2025-11-25 (priming) | 2025-03-26 (with Batch)
 	Stream     string      `json:"stream"`  // request | standalone
 	K          int         `json:"k"`       // notifications emitted
 	GapMs      int         `json:"emit_gap_ms"`
@@ -53,6 +54,16 @@ type c08Spec struct {
 	Pad        int         `json:"pad,omitempty"`
 	Noise      bool        `json:"noise,omitempty"` // a second session shares the event store and is notified in between
 	JSON       bool        `json:"json,omitempty"`  // JSONResponse mode (standalone stream scenarios only)
+	// Pings: before emission j (1..K; K+1: before the result) the server pings the client on the stream under test and
+	// waits up to 3 ms for the answer. The client answers every ping it reads; one that goes unanswered is cancelled.
+	Pings []int `json:"pings,omitempty"`
+	// DeadCtx: notifications j that the server sends with a context that is already cancelled. A write that returns
+	// nil is a write like any other; one that returns an error is not counted as emitted.
+	DeadCtx []int `json:"dead_ctx,omitempty"`
+	// Batch (request stream, protocol 2025-03-26): the POST is a JSON-RPC batch of the emit call and a second call
+	// that is answered after BatchAtMs (+0.5), so that one logical stream carries two requests and two responses.
+	Batch     bool `json:"batch,omitempty"`
+	BatchAtMs int  `json:"batch_at_ms,omitempty"`
 }
 
 func genC08(r *vh.Rand) c08Spec {
@@ -97,6 +108,25 @@ func genC08(r *vh.Rand) c08Spec {
 	}
 	if s.Stream == "standalone" && r.Chance(1, 3) {
 		s.JSON = true
+	}
+	// round 9 (drawn last: everything above is as it was)
+	if s.Stream != "initialize" && r.Chance(1, 4) {
+		for j := 1; j <= s.K+1; j++ {
+			if r.Chance(1, 3) {
+				s.Pings = append(s.Pings, j)
+			}
+		}
+	}
+	if s.K > 0 && r.Chance(1, 4) {
+		for j := 1; j <= s.K; j++ {
+			if r.Chance(1, 3) {
+				s.DeadCtx = append(s.DeadCtx, j)
+			}
+		}
+	}
+	if s.Stream == "request" && r.Chance(1, 6) {
+		s.Version, s.Batch = "2025-03-26", true
+		s.BatchAtMs = r.Intn((s.K+1)*s.GapMs + 8)
 	}
 	return s
 }
@@ -201,6 +231,7 @@ func TestVerifC08(t *testing.T) {
 		Cases:    vh.Pick(2000, 80000),
 		Rule: "each case: raw HTTP client vs StreamableHTTPHandler+recorded EventStore; a tool emits K in 0..6 numbered notifications every 4 or 10 ms and then its result (or, standalone stream, the server notifies out of band); the first exchange is cut at an instant in [0, K*gap+12) ms, " +
 			"then 1..4 resumes with Last-Event-ID = last id received (or an id up to 3 events earlier), each after a pause of 0..24 ms and cut again after 0..39 ms; protocol 2025-06-18 (no priming) or 2025-11-25 (priming); 1/6 with a 2-5 kB store so that early events are purged; " +
+			"1/4 with server pings on the stream (answered by the client when it reads them, else cancelled after 3 ms), 1/4 with notifications written under an already cancelled context, 1/6 of the request streams a 2025-03-26 batch of two calls; " +
 			"finally every id ever received is resumed to the end. non-trivial: >=1 cut exchange followed by a resume that replayed >=1 event and >=1 message written while no exchange was attached. distinct = distinct (version, stream, K, cut/resume pattern)",
 		MinNontrivial: 100,
 		Assumptions:   []string{"only event ids previously issued on that stream are presented", "a resume that hits purged events may be refused (HTTP 400) instead of replayed", "cuts coinciding with an emission instant may or may not include that event; the oracle follows what was actually received"},
@@ -235,22 +266,65 @@ func runC08(c *vh.Case, spec c08Spec) {
 	var emu sync.Mutex
 	server := mcp.NewServer(&mcp.Implementation{Name: "s", Version: "1"}, nil)
 	var ssRef *mcp.ServerSession
+	// ping: a server->client request on the stream; answered at once when the client reads it, given up after 3 ms
+	ping := func(ctx context.Context, ss *mcp.ServerSession, j int) {
+		if !slices.Contains(spec.Pings, j) {
+			return
+		}
+		pctx, cancel := context.WithTimeout(ctx, ms(3))
+		defer cancel()
+		err := ss.Ping(pctx, nil)
+		log.Add("ping", "before", j, "err", fmt.Sprint(err))
+	}
+	// notify emits notification j; with a dead context it counts only if the write was accepted
+	notify := func(ctx context.Context, ss *mcp.ServerSession, j int) {
+		msg := fmt.Sprintf("n%d%s", j, pad)
+		dead := slices.Contains(spec.DeadCtx, j)
+		if dead {
+			var giveUp context.CancelFunc
+			ctx, giveUp = context.WithCancel(ctx)
+			giveUp()
+		}
+		emu.Lock()
+		emitted = append(emitted, msg)
+		emu.Unlock()
+		log.Add("emit", "j", j, "dead_ctx", dead)
+		err := ss.NotifyProgress(ctx, &mcp.ProgressNotificationParams{ProgressToken: "tok", Progress: float64(j), Message: msg})
+		if dead && err != nil {
+			emu.Lock()
+			if i := slices.Index(emitted, msg); i >= 0 {
+				emitted = slices.Delete(emitted, i, i+1)
+			}
+			emu.Unlock()
+			log.Add("emit-refused", "j", j, "err", err.Error())
+			c.Count("writes_with_a_cancelled_context_refused", 1)
+		} else if dead {
+			c.Count("writes_with_a_cancelled_context", 1)
+		}
+	}
 	server.AddTool(&mcp.Tool{Name: "emit", InputSchema: json.RawMessage(`{"type":"object"}`)}, func(ctx context.Context, req *mcp.CallToolRequest) (*mcp.CallToolResult, error) {
 		for j := 1; j <= spec.K; j++ {
 			time.Sleep(ms(spec.GapMs))
-			msg := fmt.Sprintf("n%d%s", j, pad)
-			emu.Lock()
-			emitted = append(emitted, msg)
-			emu.Unlock()
-			log.Add("emit", "j", j)
-			req.Session.NotifyProgress(ctx, &mcp.ProgressNotificationParams{ProgressToken: "tok", Progress: float64(j), Message: msg})
+			ping(ctx, req.Session, j)
+			notify(ctx, req.Session, j)
 		}
 		time.Sleep(ms(spec.GapMs))
+		ping(ctx, req.Session, spec.K+1)
 		emu.Lock()
 		emitted = append(emitted, "result")
 		emu.Unlock()
 		log.Add("emit", "j", "result")
 		return &mcp.CallToolResult{Content: []mcp.Content{&mcp.TextContent{Text: "result" + pad}}}, nil
+	})
+	// the second call of a batch: no notifications, its answer after BatchAtMs and half a millisecond, which is never
+	// an emission instant of the first (what the stream holds must have one order)
+	server.AddTool(&mcp.Tool{Name: "quick", InputSchema: json.RawMessage(`{"type":"object"}`)}, func(ctx context.Context, req *mcp.CallToolRequest) (*mcp.CallToolResult, error) {
+		time.Sleep(ms(spec.BatchAtMs) + 500*time.Microsecond)
+		emu.Lock()
+		emitted = append(emitted, "result2")
+		emu.Unlock()
+		log.Add("emit", "j", "result2")
+		return &mcp.CallToolResult{Content: []mcp.Content{&mcp.TextContent{Text: "result2" + pad}}}, nil
 	})
 	if spec.Stream == "initialize" {
 		server.AddReceivingMiddleware(func(next mcp.MethodHandler) mcp.MethodHandler {
@@ -329,6 +403,21 @@ func runC08(c *vh.Case, spec c08Spec) {
 		close(noiseDone)
 	}
 
+	// answerPing: a client answers the pings it reads (each once, also when it reads them in a replay)
+	answered := map[string]bool{}
+	answerPing := func(e vhm.SSEvent) {
+		var m struct {
+			ID     json.RawMessage `json:"id"`
+			Method string          `json:"method"`
+		}
+		if len(spec.Pings) == 0 || json.Unmarshal([]byte(e.Data), &m) != nil || m.Method != "ping" || len(m.ID) == 0 || answered[string(m.ID)] {
+			return
+		}
+		answered[string(m.ID)] = true
+		c.Count("server_pings_answered_by_the_client", 1)
+		st, _, _, _ := ip.Do(ctx, "POST", "http://example.test/mcp", hdr, []byte(fmt.Sprintf(`{"jsonrpc":"2.0","id":%s,"result":{}}`, m.ID)))
+		log.Add("ping-answered", "id", string(m.ID), "status", st)
+	}
 	// exchange performs one HTTP exchange and reads complete SSE events until it is cut or the body ends.
 	exchange := func(method, leid, body string, cutMs int) c08Exchange {
 		ex := c08Exchange{Kind: method, LEID: leid}
@@ -371,7 +460,10 @@ func runC08(c *vh.Case, spec c08Spec) {
 			log.Add("exchange", "kind", method, "leid", leid, "events", 0, "eof", false, "status", ex.Status)
 			return ex
 		}
-		rerr := vhm.ReadSSE(resp.Body, func(e vhm.SSEvent) { ex.Events = append(ex.Events, e) })
+		rerr := vhm.ReadSSE(resp.Body, func(e vhm.SSEvent) {
+			ex.Events = append(ex.Events, e)
+			answerPing(e)
+		})
 		ex.EOF = rerr == nil && ectx.Err() == nil
 		ex.Ended = time.Now()
 		resp.Body.Close()
@@ -406,7 +498,7 @@ func runC08(c *vh.Case, spec c08Spec) {
 	}
 	var exs []c08Exchange
 	var streamID string
-	totalMs := (spec.K+1)*spec.GapMs + 5
+	totalMs := (spec.K+1)*spec.GapMs + 5 + 3*len(spec.Pings) + spec.BatchAtMs
 	bgDone := make(chan struct{})
 	if spec.Stream == "initialize" {
 		ex0 := exchange("POST", "", initMsg, spec.FirstCutMs)
@@ -427,7 +519,12 @@ func runC08(c *vh.Case, spec c08Spec) {
 		hdr["Mcp-Session-Id"] = sid
 		hdr["Mcp-Protocol-Version"] = spec.Version
 	} else if isReq {
-		exs = append(exs, exchange("POST", "", `{"jsonrpc":"2.0","id":7,"method":"tools/call","params":{"name":"emit","arguments":{}}}`, spec.FirstCutMs))
+		body := `{"jsonrpc":"2.0","id":7,"method":"tools/call","params":{"name":"emit","arguments":{}}}`
+		if spec.Batch {
+			c.Count("batches_of_two_calls", 1)
+			body = `[` + body + `,{"jsonrpc":"2.0","id":8,"method":"tools/call","params":{"name":"quick","arguments":{}}}]`
+		}
+		exs = append(exs, exchange("POST", "", body, spec.FirstCutMs))
 		close(bgDone)
 	} else {
 		// standalone stream: the server notifies out of band at the same instants
@@ -435,12 +532,12 @@ func runC08(c *vh.Case, spec c08Spec) {
 			defer close(bgDone)
 			for j := 1; j <= spec.K; j++ {
 				time.Sleep(ms(spec.GapMs))
-				msg := fmt.Sprintf("n%d%s", j, pad)
-				emu.Lock()
-				emitted = append(emitted, msg)
-				emu.Unlock()
-				log.Add("emit", "j", j)
-				ssRef.NotifyProgress(ctx, &mcp.ProgressNotificationParams{ProgressToken: "tok", Progress: float64(j), Message: msg})
+				ping(ctx, ssRef, j)
+				notify(ctx, ssRef, j)
+			}
+			if slices.Contains(spec.Pings, spec.K+1) {
+				time.Sleep(ms(spec.GapMs))
+				ping(ctx, ssRef, spec.K+1)
 			}
 		}()
 		fc := spec.FirstCutMs
@@ -675,7 +772,8 @@ func runC08(c *vh.Case, spec c08Spec) {
 			continue
 		}
 		var m struct {
-			Method string `json:"method"`
+			ID     json.RawMessage `json:"id"`
+			Method string          `json:"method"`
 			Params struct {
 				Message string `json:"message"`
 			} `json:"params"`
@@ -685,6 +783,8 @@ func runC08(c *vh.Case, spec c08Spec) {
 		switch {
 		case m.Method == "notifications/progress":
 			logged = append(logged, m.Params.Message)
+		case len(m.Result) > 0 && string(m.ID) == "8":
+			logged = append(logged, "result2")
 		case len(m.Result) > 0:
 			logged = append(logged, "result")
 		}
